@@ -3,6 +3,7 @@ package main
 import (
 	"fmt"
 
+	"verif/harness/internal/cluster"
 	"verif/harness/internal/crashpt"
 	"verif/harness/internal/ctlsim"
 	"verif/harness/internal/restfuzz"
@@ -17,6 +18,8 @@ func runOtherWorker(engine string, wa workerArgs) error {
 		return restfuzz.RunWorker(wa.prop, wa.seed, wa.worker, wa.cases, wa.scratch, wa.out, wa.extra)
 	case "rpcsim":
 		return rpcsim.RunWorker(wa.prop, wa.seed, wa.worker, wa.cases, wa.out, wa.extra["tier"] == "thorough")
+	case "cluster":
+		return cluster.RunWorker(wa.prop, wa.seed, wa.worker, wa.cases, wa.scratch, wa.out, wa.extra)
 	case "ctlsim":
 		return ctlsim.RunWorker(wa.prop, wa.seed, wa.worker, wa.cases, wa.out)
 	}
